@@ -5,14 +5,29 @@ use crate::{
 
 pub fn can_be_used<T, S>(lhs: Type, rhs: Type, can_be_used: T, return_type: S) -> bool
 where
-    T: FnOnce(&Type, &Type) -> bool,
-    S: FnOnce(&Type, &Type) -> Type,
+    T: Fn(&Type, &Type) -> bool,
+    S: Fn(&Type, &Type) -> Type,
+{
+    // a value of type `mut A | mut B` is one of those cells and cells are invariant,
+    // so the assignment has to be admissible for each of them on its own
+    if let Type::Multi(multi) = &lhs {
+        return multi
+            .iter()
+            .all(|member| can_be_used_single(member, &rhs, &can_be_used, &return_type));
+    }
+    can_be_used_single(&lhs, &rhs, &can_be_used, &return_type)
+}
+
+fn can_be_used_single<T, S>(lhs: &Type, rhs: &Type, can_be_used: &T, return_type: &S) -> bool
+where
+    T: Fn(&Type, &Type) -> bool,
+    S: Fn(&Type, &Type) -> Type,
 {
     let Some(var_type) = lhs.mut_element_type() else {
         return false;
     };
-    let can_be_used = can_be_used(&var_type, &rhs);
-    let return_type = return_type(&var_type, &rhs);
+    let can_be_used = can_be_used(&var_type, rhs);
+    let return_type = return_type(&var_type, rhs);
     can_be_used && return_type.matches(&var_type)
 }
 
